@@ -60,7 +60,7 @@ var wrapPieces = []string{"<mj-text", "<MJ-Text", "<mj-text>", "<mj-text a=\"x>y
 	"</mj-text", "</mj-text>", "</MJ-TEXT \n>", "</mj-text\n\n\t>", "</mj-text x>", "</mj-tex", "<br/>", "<br />", "<BR\n/>", "<br   />", "<br\n  \n/>", "<linK/>", "<ſource src=\"a\"/>", "<tracK\n/>",
 	"<img a='>'/>", "<img src=\"i.png\"\n alt=\"a\"/>", "<hr", "<wbr\t/>", "<col>", "<colx y/>", "<b>", "</b>", "<input disabled/>", "<meta/><link/>", "<![CDATA[", "]]>", " <![CDATA[x]]>", "\n", "\r\n", " ", "\t", "\"", "'", "a", "text",
 	"&amp;", "&nbsp;", "&", "/", "<", "\xff", "\xe2\x84", "<!-- c -->", "<!--", "-->", "<!-- 5\" & -->", "<![CDATA[ \"a & b\" &copy; ]]>", "&copy;", "&#160;", " a=\"x&y\"", " b='&copy;&z;'", "<mj-raw><br/></mj-raw>", "<mj-button href=\"u\">go</mj-button\n>",
-	"<![CDATA[a[b]]]>", "<![CDATA[x]]]]>", "]]]>", "<!-- c --->", "<!-- d ---->", "--->", "<![CDATA[]]>", "<!---->"}
+	" e=\"\"", " f=''", "<![CDATA[a[b]]]>", "<![CDATA[x]]]]>", "]]]>", "<!-- c --->", "<!-- d ---->", "--->", "<![CDATA[]]>", "<!---->"}
 
 func wrapTexts(seed int64, n int) []string {
 	var out []string
@@ -74,6 +74,11 @@ func wrapTexts(seed int64, n int) []string {
 	for _, c := range []string{"<![CDATA[a]]> &amp; b", "<![CDATA[a]]>b<![CDATA[c]]>d", " \n<![CDATA[a]]>\n", "<![CDATA[a]]> ]]> <br/> x", "<![CDATA[a]]><![CDATA[b]]>", "<![CDATA[a]]> &lt;u&gt; <![CDATA[<b>",
 		"<![CDATA[a]]> x ]] > y ]]", "<![CDATA[]]>x", "<![CDATA[a]]>x<![cdata[y]]>", "<![CDATA[a<br/>]]><br/><![CDATA[]]]]>]", "<![CDATA[a", "<![CDATA[a]]", "<![CDATA[a]]>\xff<![CDATA[", "<![CDATA[a]]>]]><![CDATA[b]]>"} {
 		out = append(out, "<mj-text>"+c+"</mj-text>", "<mj-body><mj-text css-class=\"k\">"+c+"</mj-text\n><mj-text>plain</mj-text></mj-body>")
+	}
+	// mj-text start tags whose attributes have EMPTY values (the closing quote right behind the opening one), both quote styles,
+	// first / last / only attribute, followed by content that needs the wrapping
+	for _, at := range []string{` css-class=""`, ` padding=''`, ` a="" b="x"`, ` a="x" b=""`, ` a='' b=''`, ` a = ""`, ` a=""/`} {
+		out = append(out, "<mj-text"+at+">x<br>y &amp; <b>z</b></mj-text><mj-text>second<br></mj-text>", "<mjml><mj-body><mj-text"+at+"\n>a &lt; b</mj-text\n></mj-body></mjml>")
 	}
 	// every entity the markup-only replacement knows, first inside material it must not touch (a comment, an author-written
 	// CDATA section), then in markup; markup first; both around — a scan that keeps a position across the skipped
